@@ -294,8 +294,10 @@ class C04FPKernel(Harness):
 
     def instances(self, tier):
         for w in (self.WIDTHS_QUICK if tier == "quick" else self.WIDTHS_THOROUGH):
-            for start in ("empty", "one"):
-                yield f"fp-w{w}-{start}", dict(w=w, start=start, reach=8 if tier == "quick" else 30)
+            yield f"fp-w{w}-empty", dict(w=w, start="empty", reach=8 if tier == "quick" else 30)
+            if tier != "quick":
+                # from a one-bin state the kernel forks over the number of bins added: minutes of QF_FP time per width
+                yield f"fp-w{w}-one", dict(w=w, start="one", reach=4)
 
     def declare(self, cx, p):
         return {"v": cx.fp("v", -p["reach"] * p["w"], p["reach"] * p["w"])}
